@@ -453,19 +453,23 @@ class Inliner:
         """`recv.m(a, helper(..))` / `x = f(helper(..))`: the helper call is an argument of the statement's top-level call and everything
         evaluated before it is a plain name / attribute / constant -> `__tmp = helper(..)` in front (then inlined as an assignment)"""
         top = None
-        if isinstance(s, ast.AugAssign) and isinstance(s.target, ast.Name) and isinstance(s.value, ast.Call) and depth < MAX_DEPTH:
+        holder, fld = s, "value"
+        if isinstance(s, ast.AugAssign):
+            while isinstance(getattr(holder, fld), ast.UnaryOp):
+                holder, fld = getattr(holder, fld), "operand"  # `x += not helper(..)`: the unary operator is applied to the finished result
+        if isinstance(s, ast.AugAssign) and isinstance(s.target, ast.Name) and isinstance(getattr(holder, fld), ast.Call) and depth < MAX_DEPTH:
             # `x += helper(..)` with a local name x (which the helper cannot touch):  __arg = helper(..); x += __arg
-            av = s.value
+            av = getattr(holder, fld)
             q = self._eligible_stmt_helper(av)
             if q is None or q in stack or _has(self.pristine[q].body, (ast.Yield, ast.YieldFrom)):
                 return None
             self.counter += 1
             tmp = f"__arg{self.counter}"
             assign = self._at(ast.Assign(targets=[ast.Name(id=tmp, ctx=ast.Store())], value=av), av)
-            s.value = self._at(ast.Name(id=tmp, ctx=ast.Load()), av)
+            setattr(holder, fld, self._at(ast.Name(id=tmp, ctx=ast.Load()), av))
             rep = self.try_inline(assign, host, stack, depth)
             if rep is None:
-                s.value = av
+                setattr(holder, fld, av)
                 return None
             return rep + [s]
         if isinstance(s, ast.Expr) and isinstance(s.value, ast.Call):
